@@ -82,12 +82,14 @@ def run_chunk(chunk, tier, seed):
     cands = F.candidate_edges(types, seed)
     if sub == "A":
         m = 2 if (tier == "quick" or n == 3) else 3
-        vos = [list(range(n))] if tier == "quick" else ([list(range(n)), list(range(n))[::-1]] + ([[1, 2, 0]] if n == 3 else []))
+        vos = [list(range(n)), list(range(n))[::-1]] + ([[1, 2, 0]] if (n == 3 and tier == "thorough") else [])
         for ms in F.edge_multisets(len(cands), m):
             for fixed in itertools.product((False, True), repeat=n):
                 for ffp in (False, True):
                     for mi in _iters(tier):
                         for vo in vos:
+                            if tier == "quick" and vo != vos[0] and mi != 1:
+                                continue  # quick: permuted vertex lists with a single iteration only
                             _do(acc, {"t": "A", "types": types, "seed": seed, "edges": ms, "fixed": list(fixed), "ffp": ffp, "max_iter": mi, "vorder": vo, "far": False})
     elif sub == "D":
         for ms in F.edge_multisets(len(cands), 1 if n == 3 else 2):
